@@ -258,21 +258,26 @@ async def check_validity_product(ctx, case):
     for rc in product(STATES, repeat=len(case["rc_keys"])):
         for fc in product((True, False), repeat=len(case["fc_keys"])):
             expected.add((tuple(zip(sorted(case["rc_keys"]), rc)), tuple(zip(sorted(case["fc_keys"]), fc))))
-    # what the evaluators actually saw, per evaluation (= per world): every event must carry the context of its own world
-    observed = set()
+    # what the evaluators actually saw, per evaluation (= per world): every event must carry the context of its own world, and every
+    # world must be an element of the product. NOT demanded: that every element of the product is evaluated, or that every key of an
+    # evaluation is asked for (an implementation that decides validity structurally, stops early or evaluates lazily is as good)
+    rc_only = {e[0] for e in expected}
+    complete = set()
     for w in seen:
         for ev in w.log:
             ctx.count("validity_events")
             if ev[0] == "rc" and ev[3] != w.id:
                 ctx.violation("context-leak", f"is_valid_expression({s!r}): an evaluation for assignment {w.id} ran with the context of {ev[3]}")
                 return
-        rc_seen = tuple(sorted((ev[1], w.rc[ev[1]]) for ev in w.log if ev[0] == "rc"))
-        if w.log:
-            observed.add((tuple(sorted(set(rc_seen))), tuple(sorted(w.fc.items()))))
-    rc_only = {e[0] for e in expected}
-    if {o[0] for o in observed} != rc_only:
-        ctx.violation("context-leak", f"is_valid_expression({s!r}): the evaluators saw {len({o[0] for o in observed})} distinct requirement assignments, the product has {len(rc_only)}")
-        return
+        own = tuple(sorted((k, v) for k, v in w.rc.items() if k in case["rc_keys"]))
+        if own not in rc_only:
+            ctx.violation("context-leak", f"is_valid_expression({s!r}): an evaluation ran for the assignment {own}, which is no element of the product over {case['rc_keys']}")
+            return
+        if {ev[1] for ev in w.log if ev[0] == "rc"} >= set(case["rc_keys"]):
+            complete.add(own)
+    ctx.count("validity_assignments_fully_evaluated", len(complete))
+    if complete == rc_only:
+        ctx.count("validity_runs_covering_the_whole_product")
     if sc.max_parked >= 2:
         ctx.nontrivial(["validity", s])
         ctx.count("validity_runs_with_concurrency")
